@@ -43,7 +43,7 @@ ASSUMPTIONS = [
     "inputs are well-formed trees (id == position, root 0), any numbering",
     "order of the returned branches / paths / tips / furcations is unspecified",
 ]
-REQUIRED = ["decompositions_from_inside_a_traversal", "branches_checked", "paths_checked", "tips_checked", "furcations_checked",
+REQUIRED = ["trees_of_tens_of_thousands_of_nodes", "decompositions_from_inside_a_traversal", "branches_checked", "paths_checked", "tips_checked", "furcations_checked",
             "node_predicates_checked", "node_branch_checked", "branch_tree_checked",
             "branch_tree_memory_probed", "longest_path_checked", "root_one_child_trees",
             "derived_trees_checked", "negative_position_handles", "relinked_through_callers_array",
@@ -238,6 +238,8 @@ def _check(ctx, case, tree, spec):
     if sorted(gf) != sorted(fur):
         return ctx.violation("furcations-wrong", f"get_furcations = {sorted(gf)[:8]}, nodes with "
                                                  f">= 2 children = {sorted(fur)[:8]}", case)
+    if case.get("big"):
+        return  # (tens of thousands of nodes: the decompositions above only)
     # --- per node predicates and Node.branch
     nodes = range(n) if n <= 60 else sorted(set(ctx.rng.integers(0, n, 25).tolist()))
     br_of = {}
@@ -400,6 +402,17 @@ def run(ctx):
             ctx.case(case, klass="size-sweep")
             ctx.count("size_sweep_cases")
             execute(ctx, case)
+        # sizes between 2^15 and 2^16 and beyond (16-bit index types wrap there): branches, paths,
+        # tips and furcations of one such tree per quick run, all of them in the thorough tier
+        bigs = [40000, 50000, 65000, 70000]
+        for j, n_ in enumerate(bigs if not ctx.quick else [bigs[ctx.seed % 3]]):
+            if (j + 3) % ctx.nshards == ctx.shard:
+                case = {"tree": {"shape": "recursive" if (j + ctx.seed) % 2 else "binary", "n": n_,
+                                 "numbering": "perm", "geom": "growth", "types": "soma",
+                                 "extras": 0, "seed": 500 + n_ + ctx.seed}, "big": True}
+                ctx.case(case, klass="size-sweep/large")
+                ctx.count("trees_of_tens_of_thousands_of_nodes")
+                execute(ctx, case)
         for j, rc in enumerate(G.real_recipes(rng, 1000 if ctx.quick else None)):
             if j % ctx.nshards == ctx.shard:
                 case = {"tree": rc}
